@@ -6,6 +6,9 @@
       alone  GreedyDecoder(letters)(log_softmax of line n).best_hyp()       (the stand-alone decoder, per line)
       ocr    PytorchEngineLineOCR.run_ocr(batch) with a stub network that returns the same scores
       filt   char_confidences.greedy_filtration(softmax of line n, chars)[0]  (the greedy text behind the per-character confidences)
+      raw    GreedyDecoder(letters)(line n of the network output AS GIVEN, frames x symbols, in its own element type).best_hyp():
+             raw scores with max_unnormalization = inf (as the repository's tests call it), or - regimes "ulp32" / "ulp64" -
+             properly normalised log-probabilities with the default tolerance.                               (round 9)
    Texts are recorded as class indices through the inverse character table (an unknown character is 99).
    Accepted iff every text of every line equals Collapse(paths[n]) - the definition in the statement; Greedy.tla proves
    that the scan and the vectorised algorithm both equal it.  verdict = 0 or the number of the first failing clause.
@@ -15,6 +18,15 @@
            preceded - on those very objects - by a decode of another small batch with another alphabet and by calls that fail
            (a character table that is too short, unnormalised log-probabilities, a network that raises): what is recorded
            is the LAST call, and the statement pins it whatever was decoded (or went wrong) before.
+           Round 9: `paths` is the per-frame arg-max of the SCORES AS GIVEN, whatever their element type and magnitude
+           (field regime, informative only: "plain" float32 scores up to +-240; "hi32" / "hi64" raw scores so large that exp()
+           overflows to inf for several classes of a frame; "lo32" / "lo64" scores so low that exp() underflows to 0 for every
+           class of a frame; "ulp32" / "ulp64" normalised log-probabilities in which the winner leads a lower-indexed class by
+           one unit in the last place, the two posteriors being equal in that element type).  The statement speaks of the
+           arg-max symbols of the score tensor: a decoder that takes the arg-max of a non-injective image of the scores
+           (posteriors, a narrower element type, clipped scores) returns another path on such tensors.  nofilt = TRUE: the
+           float64 posteriors greedy_filtration would be given cannot represent the order of the scores (ulp64: the two
+           posteriors are EQUAL) - that function is then not called and clause 5 is silent; every other text is still judged.
    kind = "wide"   a score tensor of a size TLC cannot enumerate: more than 255 / 1024 / 4096 / 32767 / 65535 frames or
            classes.  The arg-max path of line i is recorded run-length encoded: run k is the symbol syms[i][k] on the frames
            ends[i][k-1]+1 .. ends[i][k] (ends[i][0] = 0, last end = T); the driver expands the runs, renders the tensor and
@@ -58,6 +70,7 @@ JudgeWide == IF ~Assert(WellFormedWide, <<"malformed wide trace (driver error)",
              ELSE IF ~WideOK(Tr.alone) THEN 3
              ELSE IF ~WideOK(Tr.ocr) THEN 4
              ELSE IF ~WideOK(Tr.filt) THEN 5
+             ELSE IF ~WideOK(Tr.raw) THEN 6
              ELSE 0
 
 \* ---------------------------------------------------------------- kind = "batch"
@@ -65,7 +78,8 @@ JudgeBatch == IF Tr.outcome # "ok" THEN 1
               ELSE IF ~TextsOK(Tr.eng) THEN 2
               ELSE IF ~TextsOK(Tr.alone) THEN 3
               ELSE IF ~TextsOK(Tr.ocr) THEN 4
-              ELSE IF ~TextsOK(Tr.filt) THEN 5
+              ELSE IF ~Tr.nofilt /\ ~TextsOK(Tr.filt) THEN 5
+              ELSE IF ~TextsOK(Tr.raw) THEN 6
               ELSE 0
 Judge == IF Tr.kind = "wide" THEN JudgeWide ELSE JudgeBatch
 
